@@ -35,8 +35,34 @@ var spaceAShapes = func() []model.Row {
 	return out
 }()
 
+// spaceA2Shapes: prefix-related column names ("a", "ab") with values chosen so that column+value concatenations
+// coincide ("a"+"bc" == "ab"+"c", "a"+"b" == "ab"+""): one input per shortcut in the key derivation (the separator).
+var spaceA2Shapes = func() []model.Row {
+	var out []model.Row
+	for _, a := range []string{"-", "b", "bc"} {
+		for _, ab := range []string{"-", "", "c"} {
+			r := model.Row{}
+			if a != "-" {
+				r["a"] = a
+			}
+			if ab != "-" {
+				r["ab"] = ab
+			}
+			out = append(out, r)
+		}
+	}
+	return out
+}()
+
+func spaceA2Leaves() []*model.Expr {
+	return []*model.Expr{model.Eq("a", "b"), model.Eq("a", "bc"), model.Eq("ab", ""), model.Eq("ab", "c"), model.Eq("a", ""), model.Eq("abc", "")}
+}
+
 // spaceADataset returns the k-th dataset in the enumeration of all row sequences of length 0..n.
-func spaceADatasets(n int) [][]model.Row {
+func spaceADatasets(n int) [][]model.Row { return shapeDatasets(spaceAShapes, n) }
+
+func shapeDatasets(shapes []model.Row, n int) [][]model.Row {
+	spaceAShapes := shapes
 	var out [][]model.Row
 	for l := 0; l <= n; l++ {
 		idx := make([]int, l)
@@ -75,6 +101,8 @@ type c01Case struct {
 	Writer  int         `json:"writer"`
 	Preload bool        `json:"preload"`
 	Expr    *model.Expr `json:"expr"`
+	// History: expressions evaluated on the same open index before Expr (only when the failure needs them)
+	History []*model.Expr `json:"history,omitempty"`
 }
 
 func rowsSig(rows []model.Row) string {
@@ -102,7 +130,13 @@ func (c c01Case) sig() string {
 	default:
 		ds = "rows=" + rowsSig(c.Rows)
 	}
-	return fmt.Sprintf("space=%s %s writer=%s preload=%v expr=%s", c.Space, ds, ix.Writer(c.Writer), c.Preload, c.Expr)
+	h := ""
+	if len(c.History) == 1 {
+		h = fmt.Sprintf(" after-evaluating=%s", c.History[0])
+	} else if len(c.History) > 1 {
+		h = fmt.Sprintf(" after-evaluating-%d-expressions-ending-with=%s", len(c.History), c.History[len(c.History)-1])
+	}
+	return fmt.Sprintf("space=%s %s writer=%s preload=%v%s expr=%s", c.Space, ds, ix.Writer(c.Writer), c.Preload, h, c.Expr)
 }
 
 // execCount runs one expression on an open index, converting a panic into an error description.
@@ -156,7 +190,7 @@ func c01Worker(ctx *rt.Ctx, job *rt.Job) []*rt.Violation {
 	var a c01Args
 	job.Decode(&a)
 	switch a.Space {
-	case "A":
+	case "A", "A2":
 		return c01SpaceA(ctx, job, a)
 	case "B":
 		return c01SpaceB(ctx, job, a)
@@ -200,8 +234,34 @@ func c01CheckDataset(ctx *rt.Ctx, space string, n, trail int, rowf func(i int) m
 				ctx.Cov.Add("evaluations", 1)
 				if msg := compareCount(d, exprs[i], idx, uexprs[i]); msg != "" {
 					idx.Close()
-					removeFile(path)
 					c := c01Case{Space: space, Rows: rows, N: n, Trail: trail, Writer: int(w), Preload: pre, Expr: exprs[i]}
+					// does it fail on a freshly opened index too? otherwise find the earlier expression(s) it depends on
+					try := func(hist []*model.Expr) string {
+						x, err := ix.Open(path, pre, nil)
+						if err != nil {
+							return ""
+						}
+						defer x.Close()
+						for _, h := range hist {
+							execCount(x, h.Updog())
+						}
+						return compareCount(d, exprs[i], x, exprs[i].Updog())
+					}
+					if m := try(nil); m != "" {
+						msg = m
+					} else {
+						found := false
+						for j := lo; j < i && !found; j++ {
+							if m := try([]*model.Expr{exprs[j]}); m != "" {
+								c.History, msg, found = []*model.Expr{exprs[j]}, m+" (correct on a freshly opened index; wrong after the earlier query)", true
+							}
+						}
+						if !found {
+							c.History = append([]*model.Expr{}, exprs[lo:i]...)
+							msg += " (correct on a freshly opened index; wrong after the preceding queries of the enumeration)"
+						}
+					}
+					removeFile(path)
 					return rt.NewViolation("C01", "count", c.sig(), c, "%s", msg)
 				}
 				if countNontrivial && wi == 0 && !pre && exprs[i].Ops() > 0 {
@@ -218,7 +278,11 @@ func c01CheckDataset(ctx *rt.Ctx, space string, n, trail int, rowf func(i int) m
 }
 
 func c01SpaceA(ctx *rt.Ctx, job *rt.Job, a c01Args) []*rt.Violation {
-	exprs := model.Trees(spaceALeaves(), a.Depth, a.Arity)
+	leaves, shapes := spaceALeaves(), spaceAShapes
+	if a.Space == "A2" {
+		leaves, shapes = spaceA2Leaves(), spaceA2Shapes
+	}
+	exprs := model.Trees(leaves, a.Depth, a.Arity)
 	// add NOT of every tree of the top depth (quick tier gets NOT over depth-1 trees this way)
 	top := len(exprs)
 	for i := 0; i < top; i++ {
@@ -230,7 +294,7 @@ func c01SpaceA(ctx *rt.Ctx, job *rt.Job, a c01Args) []*rt.Violation {
 	for i, e := range exprs {
 		uex[i] = e.Updog()
 	}
-	dss := spaceADatasets(a.Rows)
+	dss := shapeDatasets(shapes, a.Rows)
 	for di, rows := range dss {
 		if di%job.NShards != job.Shard {
 			continue
@@ -240,7 +304,7 @@ func c01SpaceA(ctx *rt.Ctx, job *rt.Job, a c01Args) []*rt.Violation {
 			break
 		}
 		rows := rows
-		v := c01CheckDataset(ctx, "A", len(rows), 0, func(i int) model.Row { return rows[i] }, rows, exprs, uex, 0, len(exprs), true)
+		v := c01CheckDataset(ctx, a.Space, len(rows), 0, func(i int) model.Row { return rows[i] }, rows, exprs, uex, 0, len(exprs), true)
 		ctx.Cov.Add("datasets", 1)
 		if v != nil {
 			return []*rt.Violation{v}
@@ -250,7 +314,7 @@ func c01SpaceA(ctx *rt.Ctx, job *rt.Job, a c01Args) []*rt.Violation {
 		}
 	}
 	if job.Shard == 0 {
-		ctx.Cov.Note("spaceA", fmt.Sprintf("%d datasets (all sequences of 0..%d rows over 9 row shapes) x %d expressions (all trees depth<=%d arity<=%d over 6 leaves + NOT of the deepest) x 3 writers x 2 open modes", len(dss), a.Rows, len(exprs), a.Depth, a.Arity))
+		ctx.Cov.Note("space"+a.Space, fmt.Sprintf("%d datasets (all sequences of 0..%d rows over 9 row shapes) x %d expressions (all trees depth<=%d arity<=%d over 6 leaves + NOT of the deepest) x 3 writers x 2 open modes", len(dss), a.Rows, len(exprs), a.Depth, a.Arity))
 	}
 	return nil
 }
@@ -460,6 +524,9 @@ func c01CheckCase(ctx *rt.Ctx, c c01Case) *rt.Violation {
 	if c.Expr == nil {
 		return nil
 	}
+	for _, h := range c.History {
+		execCount(idx, h.Updog())
+	}
 	if msg := compareCount(d, c.Expr, idx, c.Expr.Updog()); msg != "" {
 		return rt.NewViolation("C01", "count", c.sig(), c, "%s", msg)
 	}
@@ -483,6 +550,7 @@ func c01Run(ctx *rt.Ctx) []*rt.Violation {
 			add(fmt.Sprintf("B%d+3", n), c01Args{Space: "B", N: n, Trail: 3}, 1)
 		}
 		add("A", c01Args{Space: "A", Rows: 4, Depth: 1, Arity: 2}, 16)
+		add("A2", c01Args{Space: "A2", Rows: 4, Depth: 1, Arity: 2}, 16)
 		add("A2", c01Args{Space: "A", Rows: 3, Depth: 2, Arity: 2}, 32)
 		add("C", c01Args{Space: "C", Depth: 2, Arity: 3}, 16)
 		add("C3", c01Args{Space: "C", Depth: 3, Arity: 2}, 48)
@@ -497,6 +565,7 @@ func c01Run(ctx *rt.Ctx) []*rt.Violation {
 		}
 		add("B65536", c01Args{Space: "B", N: 65536, Trail: 3}, 1)
 		add("A", c01Args{Space: "A", Rows: 3, Depth: 1, Arity: 2}, 8)
+		add("A2", c01Args{Space: "A2", Rows: 3, Depth: 1, Arity: 2}, 8)
 		add("C", c01Args{Space: "C", Depth: 2, Arity: 2}, 4)
 	}
 	outs := rt.RunJobs(ctx, jobs, rt.SpawnOpt{})
